@@ -147,20 +147,33 @@ def materialise(styles, blocks):
             ch.append(el("w:br", [] if r["br"] == "line" else [("w:type", r["br"])]))
         return el("w:r", [], ch)
 
+    def inline_xml(r):
+        nodes = [run_xml(r)]
+        for kind in r.get("wrap", ()):
+            counter[0] += 1
+            nodes = wrap_inline(kind, nodes, counter[0])
+        return nodes
+
     def para_xml(p):
         pp = []
         if p["sid"] is not None:
             pp.append(el("w:pStyle", [("w:val", p["sid"])]))
         if p["num"] is not None:
             pp.append(el("w:numPr", [], [el("w:ilvl", [("w:val", str(p["num"][0]))]), el("w:numId", [("w:val", "1" if p["num"][1] else "2")])]))
-        return el("w:p", [], ([el("w:pPr", [], pp)] if pp else []) + [run_xml(r) for r in p["runs"]])
+        return el("w:p", [], ([el("w:pPr", [], pp)] if pp else []) + [x for r in p["runs"] for x in inline_xml(r)])
+    counter = [0]
+    notes = {"footnote": [], "endnote": []}
+
+    def block_xml(b):
+        if b["b"] == "p":
+            return [para_xml(b)]
+        if b["b"] == "w":
+            return wrap_blocks(b["how"], [x for c in b["inner"] for x in block_xml(c)], notes)
+        pr = [el("w:tblPr", [], [el("w:tblStyle", [("w:val", b["sid"])])])] if b["sid"] is not None else []
+        return [el("w:tbl", [], pr + [el("w:tr", [], [el("w:tc", [], [para_xml(b["cell"])])])])]
     body = []
     for b in blocks:
-        if b["b"] == "p":
-            body.append(para_xml(b))
-        else:
-            pr = [el("w:tblPr", [], [el("w:tblStyle", [("w:val", b["sid"])])])] if b["sid"] is not None else []
-            body.append(el("w:tbl", [], pr + [el("w:tr", [], [el("w:tc", [], [para_xml(b["cell"])])])]))
+        body.extend(block_xml(b))
     st = []
     for k, xml_kind in (("paragraph", "paragraph"), ("run", "character"), ("table", "table")):
         for sid, name in sorted(styles[k].items()):
@@ -169,7 +182,84 @@ def materialise(styles, blocks):
     numbering = el("w:numbering", [], [el("w:abstractNum", [("w:abstractNumId", "0")], lv("decimal")), el("w:abstractNum", [("w:abstractNumId", "1")], lv("bullet")),
                                        el("w:num", [("w:numId", "1")], [el("w:abstractNumId", [("w:val", "0")])]), el("w:num", [("w:numId", "2")], [el("w:abstractNumId", [("w:val", "1")])])])
     return [{"name": "word/document.xml", "xml": el("w:document", [], [el("w:body", [], body)])},
-            {"name": "word/styles.xml", "xml": el("w:styles", [], st)}, {"name": "word/numbering.xml", "xml": numbering}]
+            {"name": "word/styles.xml", "xml": el("w:styles", [], st)}, {"name": "word/numbering.xml", "xml": numbering}] + notes_parts(notes)
+
+
+# ---- containers: where an element stands is nothing to the mapping that describes it ------------------------------
+
+RUN_WRAPS = ["link", "link", "field", "field-int", "ins", "smart", "sdt"]
+BLOCK_WRAPS = ["cell", "hcell", "sdt", "txbx", "footnote", "endnote"]
+
+
+def wrap_inline(kind, inner, n):
+    """the inline nodes `inner` inside a container of paragraph content: w:hyperlink (internal), a complex HYPERLINK field (external /
+    internal), w:ins, w:smartTag, w:sdt"""
+    if kind == "link":
+        return [el("w:hyperlink", [("w:anchor", "t%d" % n)], inner)]
+    if kind in ("field", "field-int"):
+        instr = ' HYPERLINK "http://example.com/%d" ' % n if kind == "field" else ' HYPERLINK \\l "t%d" ' % n
+        ctl = lambda ch: el("w:r", [], ch)
+        return ([ctl([el("w:fldChar", [("w:fldCharType", "begin")])]), ctl([el("w:instrText", [], [instr])]), ctl([el("w:fldChar", [("w:fldCharType", "separate")])])]
+                + inner + [ctl([el("w:fldChar", [("w:fldCharType", "end")])])])
+    if kind == "ins":
+        return [el("w:ins", [("w:id", "1"), ("w:author", "a")], inner)]
+    if kind == "smart":
+        return [el("w:smartTag", [("w:element", "x")], inner)]
+    return [el("w:sdt", [], [el("w:sdtPr", [], [el("w:alias", [("w:val", "x")])]), el("w:sdtContent", [], inner)])]
+
+
+def wrap_blocks(kind, inner, notes):
+    """the blocks `inner` inside a container of block content: a cell of a (style-less) table in a body or a header row, a block-level
+    w:sdt, a text box (its content is read after the - here empty - paragraph that holds it), the body of a footnote / endnote
+    (`notes` collects the bodies; what stays in place is a paragraph with the reference)"""
+    if kind in ("cell", "hcell"):
+        trpr = [el("w:trPr", [], [el("w:tblHeader")])] if kind == "hcell" else []
+        return [el("w:tbl", [], [el("w:tr", [], trpr + [el("w:tc", [], inner)])])]
+    if kind == "sdt":
+        return [el("w:sdt", [], [el("w:sdtPr", [], [el("w:alias", [("w:val", "x")])]), el("w:sdtContent", [], inner)])]
+    if kind == "txbx":
+        return [el("w:p", [], [el("w:r", [], [el("w:pict", [], [el("v:shape", [], [el("v:textbox", [], [el("w:txbxContent", [], inner)])])])])])]
+    nid = str(len(notes[kind]) + 2)
+    notes[kind].append((nid, inner))
+    return [el("w:p", [], [el("w:r", [], [el("w:%sReference" % kind, [("w:id", nid)])])])]
+
+
+def notes_parts(notes):
+    return [{"name": "word/%ss.xml" % ty, "xml": el("w:%ss" % ty, [], [el("w:" + ty, [("w:id", nid)], body) for nid, body in notes[ty]])}
+            for ty in ("footnote", "endnote") if notes[ty]]
+
+
+def containerise(rng, blocks):
+    """put runs of an abstract document (gen_doc) into inline containers (in place) and some of its blocks into block containers;
+    returns the new list of blocks.  Notes are not put into notes."""
+    def paragraphs(bs):
+        for b in bs:
+            if b["b"] == "p":
+                yield b
+            elif b["b"] == "t":
+                yield b["cell"]
+    p_run = rng.choice([0.15, 0.3, 0.6])
+    for p in paragraphs(blocks):
+        for r in p["runs"]:
+            if rng.random() < p_run:
+                r["wrap"] = [rng.choice(RUN_WRAPS) for _ in range(rng.choice([1, 1, 1, 2]))]
+
+    def group(bs, kinds, depth):
+        out, i = [], 0
+        while i < len(bs):
+            if rng.random() < (0.25 if depth == 0 else 0.4):
+                k = rng.choice([1, 1, 2])
+                how = rng.choice(kinds)
+                inner = bs[i:i + k]
+                if depth == 0 and rng.random() < 0.4:
+                    inner = group(inner, [x for x in kinds if x not in ("footnote", "endnote")] if how in ("footnote", "endnote") else kinds, 1)
+                out.append({"b": "w", "how": how, "inner": inner})
+                i += k
+            else:
+                out.append(bs[i])
+                i += 1
+        return out
+    return group(blocks, BLOCK_WRAPS, 0)
 
 
 # ---- the independent reading ------------------------------------------------------------------------------------
@@ -233,12 +323,32 @@ def expected_items(meta):
                     out.append(["v", "br", None, cls])
         return out
     items = []
-    for b in meta["blocks"]:
+    notes = []
+
+    def block_items(b, outer):
         if b["b"] == "p":
-            items.extend(para_items(b, []))
-        else:
+            return para_items(b, outer)
+        if b["b"] == "t":
             i = first(ms, lambda m: describes(m, "table", b["sid"], styles["table"].get(b["sid"])))
-            items.extend(para_items(b["cell"], [i] if i is not None else []))
+            return para_items(b["cell"], outer + ([i] if i is not None else []))
+        # a container: only a table (the cell's table has no style) is an element that a mapping can describe
+        if b["how"] in ("footnote", "endnote"):
+            notes.append(b)
+            return []
+        if b["how"] in ("cell", "hcell"):
+            i = first(ms, lambda m: describes(m, "table", None, None))
+            outer = outer + ([i] if i is not None else [])
+        return [x for c in b["inner"] for x in block_items(c, outer)]
+    for b in meta["blocks"]:
+        items.extend(block_items(b, []))
+    # the bodies of the notes follow the document in the order of their references, each closed by the paragraph of its
+    # back-link (a space and the link; the link text itself is not read as document text, see observed_items)
+    k = 0
+    while k < len(notes):
+        for c in notes[k]["inner"]:
+            items.extend(block_items(c, []))
+        items.append(["c", " ", []])
+        k += 1
     return items
 
 
@@ -247,8 +357,13 @@ def observed_items(nodes):
 
     def classes(chain):
         return sorted(set(v for _n, attrs in chain for k, v in attrs if k == "class" and v[:1] == "m" and v[1:].isdigit()))
+    def note_link(chain):
+        # the label of a note reference and the arrow of a back-link: generated text, not text of the document
+        return any(nm == "a" and any(k == "href" and (v.startswith("#footnote-") or v.startswith("#endnote-")) for k, v in attrs) for nm, attrs in chain)
     for chain, n in HO.walk(nodes):
         if n[0] == "text":
+            if note_link(chain):
+                continue
             out.extend(["c", c, classes(chain)] for c in n[1])
         elif n[1] in ("br", "hr"):
             own = [v for k, v in n[2] if k == "class"]
@@ -289,17 +404,31 @@ def ensemble_case(rng, key):
         colors[0] = rng.choice(BREAK_TYPES)
     matchers = gen_matchers(rng, ids, names, colors)
     styles, blocks = gen_doc(rng, ids, names, colors, shared=rng.choice([1.0, 0.8, 0.4]))
+    if rng.random() < 0.6:
+        blocks = containerise(rng, blocks)
     paths = [path_for(rng, m["k"], "m%d" % i) for i, m in enumerate(matchers)]
     lines = [GS.print_mapping({"m": m, "p": p}, rng) for m, p in zip(matchers, paths)]
     parts = materialise(styles, blocks)
     opts = {"includeDefault": rng.random() < 0.25}
     cut = len(lines) if rng.random() < 0.7 else rng.randint(0, len(lines))
-    opts["styleMap"] = "\n".join(lines[:cut])
+    # (half of the time in another legal layout: CR LF, blank / comment lines between the mappings, a final line end)
+    join = (lambda ls: GS.layout_text(rng, ls)) if rng.random() < 0.5 else "\n".join
+    opts["styleMap"] = join(lines[:cut])
     if cut < len(lines):
         # the tail of the list comes from the embedded style map (user mappings first, then embedded ones)
-        parts.append({"name": "mammoth/style-map", "hex": "\n".join(lines[cut:]).encode("utf-8").hex()})
+        parts.append({"name": "mammoth/style-map", "hex": join(lines[cut:]).encode("utf-8").hex()})
     kinds = [m["k"] for m in matchers]
     feats = set()
+
+    def note_containers(bs):
+        for b in bs:
+            if b["b"] == "w":
+                feats.add("in-" + b["how"])
+                note_containers(b["inner"])
+            for r in (b.get("runs") or (b.get("cell") or {}).get("runs") or []):
+                for w in r.get("wrap", ()):
+                    feats.add("run-in-" + w)
+    note_containers(blocks)
     for i, a in enumerate(matchers):
         for b in matchers[i + 1:]:
             if a["k"] == b["k"]:
